@@ -1024,7 +1024,7 @@ def run_world(ch, index, tier, focus):
     for r in w.runs:
         stats["probe.cmd." + r.cmd] = stats.get("probe.cmd." + r.cmd, 0) + 1
         if r.ok is False:
-            k = "probe.fail." + (r.exc or "")[:70]
+            k = "probe.run_failed." + (r.exc or "").split(":")[0].split("(")[0][:40]
             stats[k] = stats.get(k, 0) + 1
         if r.ok and not r.dryrun:
             stats["probe.cmd." + r.cmd + ".sent_ok"] = stats.get("probe.cmd." + r.cmd + ".sent_ok", 0) + 1
